@@ -55,6 +55,8 @@ func (o c05op) String() string {
 		return "Remove(" + o.id + ")"
 	case "Filter":
 		return "Filter(" + o.pred + ")"
+	case "Iterate":
+		return "Iterate"
 	}
 	return o.kind
 }
@@ -159,6 +161,8 @@ func refApply(l []refTask, o c05op, ser int) [][]refTask {
 			return [][]refTask{nil}
 		}
 		return [][]refTask{cp(l[:len(l)-1])}
+	case "Iterate":
+		return [][]refTask{cp(l)}
 	case "Filter":
 		var r []refTask
 		f := predFn(o.pred)
@@ -231,9 +235,27 @@ func realApply(q *TaskQueue, o c05op, ser int) (removed string) {
 	case "Filter":
 		f := predFn(o.pred)
 		q.Filter(func(t task.Task) bool { return f(t.GetId(), serOf(t)) })
+	case "Iterate":
+		// an observer: what one walk over the queue shows (reported like a removal's return value)
+		var parts []string
+		q.Iterate(func(t task.Task) {
+			if c05IterateYield != nil {
+				c05IterateYield()
+			}
+			if t == nil {
+				parts = append(parts, "<nil>")
+				return
+			}
+			parts = append(parts, fmt.Sprintf("%s#%d", t.GetId(), serOf(t)))
+		})
+		removed = "[" + strings.Join(parts, " ") + "]"
 	}
 	return
 }
+
+// c05IterateYield, when set, is called for every element of a walk (part c makes it a scheduling
+// point so that another thread's operation can fall between two elements).
+var c05IterateYield func()
 
 // checkObservers compares every read-only operation with the reference list.
 func checkObservers(q *TaskQueue, l []refTask) string {
